@@ -101,7 +101,10 @@ def classify(step):
             key = "dontmerge-group-missing-complete-cpuset"
         elif k == "group" and (clauses == ["total-memory"] or (not clauses and "total_memory" in asrt)):
             key = "group-steals-memory-children-total-memory"
-        elif k == "group" and (ck.get("cs", "-") != "-" or ck.get("ccs", "-") != "-") and (ck.get("ns", "-") != "-" or ck.get("cns", "-") != "-"):
+        elif k == "group" and (ck.get("ns", "-") != "-" or ck.get("cns", "-") != "-") and \
+                ((ck.get("cs", "-") != "-" or ck.get("ccs", "-") != "-") or any("nodeset" in c for c in clauses) or "nodeset" in asrt):
+            # the user's nodeset is kept as given: inconsistent with the given cpuset, or (nodeset only) with the
+            # cpuset derived from it when it names a CPU-less node
             key = "group-incompatible-cpuset-nodeset-accepted"
         elif k == "allow" and ck.get("flags") == "1" and clauses and all(c.startswith("allowed-") for c in clauses):
             key = "allow-all-copies-complete-sets"
